@@ -30,19 +30,24 @@ def harnesses(tier):
                       ("space_dash", "' -'"), ("dash_colon", "'-:'"), ("mixed", "' \\t-:'"), ("letter", "'a'"),
                       ("colon_nl", "':\\n'")]:
         hs.append(Harness("c01_classify_" + name,
-                          "IFS=%s (concrete); ONE character: value over all of Unicode, origin, is_quoted, is_quoting symbolic" % ifs,
+                          "IFS=%s (concrete); ONE character out of 16 candidates (all IFS members used, CR, NUL, DEL, $, \\, U+00A0, U+3000, e-acute, letters; arm-concrete) x origin, is_quoted, is_quoting symbolic" % ifs,
                           [SPLIT + "Ifs::new", SPLIT + "Ifs::classify_attr", SPLIT + "Ifs::classify"],
                           "only unquoted soft-expansion characters that occur in IFS separate; white space iff space/tab/newline",
-                          timeout=900))
+                          timeout=900, cover_group="c01_classify"))
     stub = ["Ifs::classify_attr -> its specification for IFS=' -' (discharged by c01_classify_space_dash)"]
-    lens = [("0_3", "0-3"), ("4", "4"), ("5", "5"), ("6", "6")] + ([("7", "7")] if tier == "thorough" else [])
-    for n, txt in lens:
-        hs.append(Harness("c01_split_" + n,
-                          "every sequence of %s characters over {a, space, -} x every origin/quoted/quoting attribute; IFS=' -'" % txt,
-                          [SPLIT + "Ranges::next", SPLIT + "split_into", SPLIT + "Ifs::ranges"],
-                          "fields = XCU 2.6.5 reference splitter (leading/trailing IFS white space ignored, white space runs "
-                          "merge around at most one other separator, every further non-white-space separator delimits an empty field); "
-                          "characters and attributes preserved", timeout=2400, stubs=stub))
+    for n in range(0, 8 if tier == "thorough" else 7):
+        hs.append(Harness("c01_ranges_%d" % n,
+                          "every sequence of %d characters over {a, space, -} x every origin/quoted/quoting attribute; IFS=' -'" % n,
+                          [SPLIT + "Ranges::next", SPLIT + "Ifs::ranges"],
+                          "field ranges = XCU 2.6.5 reference splitter (leading/trailing IFS white space ignored, white space runs "
+                          "merge around at most one other separator, every further non-white-space separator delimits an empty field)",
+                          timeout=2400, stubs=stub, cover_group="c01_ranges"))
+    # split_into (which materialises the fields as AttrFields with a Location each) is outside: with ONE
+    # character the harness ran CBMC out of memory (16 GB) - heap-allocated Vec<AttrField> is encoded bytewise.
+    for nm, txt in (("ifs_empty", "''"), ("ifs_space_dash", "' -'")):
+        hs.append(Harness("c01_split_into_empty_field_" + nm, "the empty field, IFS=%s" % txt, [SPLIT + "split_into"],
+                          "an empty unquoted expansion result yields no field, whatever IFS is", timeout=900,
+                          recursion_bounds=core.LOCATION_RECURSION))
     hs.append(Harness("c01_switch_table", "8 value shapes (unset, '', 'a', (), (''), ('a'), ('' ''), ('' 'a')) x colon/no colon",
                       ["yash_semantics::expansion::initial::param::switch::ValueCondition::with",
                        "yash_semantics::expansion::initial::param::switch::Vacancy::of"],
@@ -57,10 +62,12 @@ def harnesses(tier):
                            "<yash_semantics::expansion::phrase::Phrase as IntoIterator>::into_iter"],
                           "phrase concatenation glues last/first field, zero fields is the identity ($@ / $* field algebra)",
                           timeout=1800, mod=MSEM, cover_group="c01_phrase"))
-    hs.append(Harness("c01_strip_0_5", "0-5 characters, value over all of Unicode, all attributes symbolic",
-                      ["yash_env::semantics::expansion::quote_removal::skip_quotes",
-                       "yash_env::semantics::expansion::attr_strip::Strip::strip"],
-                      "quote removal drops exactly the quoting characters, keeps order and values", timeout=900))
+    for n in range(0, 6 if tier == "thorough" else 5):
+        hs.append(Harness("c01_strip_%d" % n, "%d characters, value over all of Unicode, all attributes symbolic" % n,
+                          ["yash_env::semantics::expansion::quote_removal::skip_quotes",
+                           "yash_env::semantics::expansion::attr_strip::Strip::strip"],
+                          "quote removal drops exactly the quoting characters, keeps order and values", timeout=900,
+                          cover_group="c01_strip"))
     return hs
 
 
